@@ -61,70 +61,7 @@ def shrink(case):
         yield c
 
 
-def tuple_box(o, form):
-    g = VU.graph_of(o)
-    N = len(g["nodes"])
-    if form == "arc":
-        T = [float(t) for t in o.time_points][:4]
-        return [(i, s, j, t) for i in range(N) for j in range(N) for s in T for t in T][:300]
-    if form == "seq":
-        return [(v, p, k) for v in range(int(o.max_vehicles)) for p in range(int(o.max_sequence_length)) for k in range(N)][:300]
-    return []
-
-
-def query(o, form, q):
-    """one query; returns a canonical, comparable value (or an error kind)"""
-    try:
-        if q == "n":
-            return int(o.get_num_variables())
-        if q == "idx":
-            if form == "path":
-                return "n/a"
-            if form == "seq" and o.var_mapping_inverse is None:
-                o.get_num_variables()
-            out = []
-            for u in tuple_box(o, form):
-                try:
-                    r = o.get_var_index(*u)
-                    out.append(None if r is None else int(r))
-                except IndexError:
-                    out.append("IndexError")
-            return out
-        if q == "tup":
-            if form == "path":
-                return "n/a"
-            n = o.get_num_variables()
-            return [core.jsonable(tuple(F(t) if isinstance(t, float) else int(t) for t in o.get_var_tuple_index(k))) for k in range(n)]
-        if q in ("obj", "con"):
-            d = VU.impl_data(o)
-            return (d["c"], d["Q"]) if q == "obj" else (d["A"], d["b"], d["R"], d["Ashape"])
-        if q in ("qubo_o", "qubo_f"):
-            Q, k, shape = VU.qubo_dense(o, q == "qubo_f", None)
-            return (Q, k, shape)
-        if q == "routes":
-            sol = o.feasible_solution
-            if sol is None:
-                return "no-solution"
-            r = o.get_routes(np.asarray(sol))
-            return core.jsonable([[tuple(F(y) if isinstance(y, float) else (int(y) if not isinstance(y, str) else y) for y in (st if isinstance(st, tuple) else (st,))) for st in route] for route in r])
-    except Exception as e:  # noqa
-        return "raise:" + core.err_kind(e)
-    raise ValueError(q)
-
-
-def full_state(o, form):
-    st = {}
-    for q in ["n", "tup", "idx", "obj", "con", "qubo_o", "qubo_f", "routes"]:
-        st[q] = query(o, form, q)
-    sol = o.feasible_solution
-    st["solution"] = None if sol is None else [F(v) for v in np.asarray(sol).ravel()]
-    st["graph"] = VU.graph_of(o)
-    if form == "seq":
-        st["V"] = int(o.max_vehicles)
-        st["vcost"] = [F(c) for c in o.vehicle_cost]
-    if form == "path":
-        st["pool"] = [[int(i) for i in r] for r in o.routes]
-    return st
+from .props_common import tuple_box, query, full_state  # noqa: E402
 
 
 def run_history(case, hist, res=None, check_twice=False):
